@@ -3,4 +3,5 @@ CONSTANTS PMax = 12
           NR = 6
           NE = 5
 INVARIANT SelfPerfect
+INVARIANT ContNested
 INVARIANT Export
